@@ -211,7 +211,8 @@ def st_config(draw, outdir, sources=None, ident_sources=("snoopy_literal", "uid"
         return {"kind": kind, "ini": draw(st.binary(max_size=300)), "opts": []}
     opts = []
     out = draw(st.sampled_from(["default", "file", "filetpl", "stdout", "stderr", "devnull", "devtty", "socket",
-                                "devlog", "noop", "bogus", "file-noarg", "file-missingdir"]))
+                                "devlog", "noop", "bogus", "file-noarg", "file-missingdir", "file-devfull", "file-isdir",
+                                "socket-missing"]))
     o = outdir.encode()
     if out == "file":
         opts.append((b"output", b"file:" + o + b"/log"))
@@ -223,6 +224,12 @@ def st_config(draw, outdir, sources=None, ident_sources=("snoopy_literal", "uid"
         opts.append((b"output", b"file"))
     elif out == "file-missingdir":
         opts.append((b"output", b"file:" + o + b"/nodir/sub/log"))
+    elif out == "file-devfull":
+        opts.append((b"output", b"file:/dev/full"))          # open succeeds, every write fails with ENOSPC
+    elif out == "file-isdir":
+        opts.append((b"output", b"file:" + o))                # open fails (EISDIR)
+    elif out == "socket-missing":
+        opts.append((b"output", b"socket:" + o + b"/no-such-socket"))
     elif out != "default":
         opts.append((b"output", out.encode()))
     if draw(st.booleans()):
